@@ -402,7 +402,15 @@ def set_elastic_params(elas_prm_names, elas_prm_dflt_vals,
                  blk_dbg_prm)
     elif prmcase == 2:
         # given -- lame_mod, poisson_ratio
-        # Neg. poisson and FPEs not possible.
+        # Neg. poisson not possible.  A zero Poisson's Ratio is inconsistent
+        # with a (required positive) Lame modulus: divide by zero below.
+        if ns['pnu'] == 0.0:
+            raise ValueError(
+                "\nSpecified values of " + eky0 + " = " + str(ns['plda']) +
+                ", and " + eky1 + " = " + str(ns['pnu']) + ", " +
+                "\n    are inconsistent: a non-zero Lame modulus requires a " +
+                "non-zero Poisson's Ratio (divide by zero)."
+                "\n    Please check your inputs and try again.")
         ns['pe'] = ns['plda']*(1 + ns['pnu'])*(1 - 2 * ns['pnu'])/ns['pnu']
         ns['pg'] = ns['plda']*(1 - 2 * ns['pnu']) / (2*ns['pnu'])
         check_ii(prmcase, eky0, ns['plda'], ivar_pnms['pg'], ns['pg'],
